@@ -263,7 +263,7 @@ func run(cfg lib.Cfg) error {
 		}
 	}
 	// random multi-fault sequences on random growth / reorg histories
-	n := 24
+	n := 16
 	if cfg.Thorough() {
 		n = 1200
 	}
